@@ -524,6 +524,16 @@ def dispatch(E, c, tc, args):
             if n >= len(d.items):
                 raise PathAbort("panic", "index out of bounds")
             return VRef(r.cell, r.path + (("field", n),))
+    if tc and tc[1] and re.match(r"Index<(std::ops::|core::ops::)?(RangeTo|RangeFrom|Range)<usize>>", tc[1]) and tc[2] == "index" and isinstance(deref(E, args[0]), VSeq):
+        d = deref(E, args[0])
+        rg = deref(E, args[1])
+        n_ = len(d.items) - d.pos
+        kind_ = re.search(r"(RangeTo|RangeFrom|Range)<", tc[1]).group(1)
+        lo = 0 if kind_ == "RangeTo" else conc(E, deref(E, rg.fields[0]).t, "slice start")
+        hi = n_ if kind_ == "RangeFrom" else conc(E, deref(E, rg.fields[0 if kind_ == "RangeTo" else 1]).t, "slice end")
+        if lo > hi or hi > n_:
+            raise PathAbort("panic", "range end index %d out of range for slice of length %d" % (hi, n_))
+        return VRef(Cell(VSeq(list(d.items[d.pos + lo:d.pos + hi]), "vec"), "subslice"))
     if tc and tc[1] in ("Deref", "DerefMut") and isinstance(deref(E, args[0]), VSeq):
         return ref_chain(E, args[0])
     if re.search(r"<impl \[.*\]>::(first|last|first_mut|last_mut)$", c):
@@ -654,6 +664,24 @@ def dispatch(E, c, tc, args):
                             return some(x) if meth == "find" else some(VInt(k, "usize"))
                 it.pos = len(it.items)
                 return NONE()
+            if meth == "flatten":
+                # an iterator of Options (Some(x) -> x, None -> nothing) or of sequences
+                out = []
+                for x in rest:
+                    xv = E.force_arg(x) if isinstance(x, VRef) or not isinstance(x, (VEnum, VSeq)) else x
+                    xv = deref(E, xv) if not isinstance(xv, (VEnum, VSeq)) else xv
+                    if isinstance(xv, VEnum) and xv.ty == "Option":
+                        if xv.variant == "Some":
+                            if isinstance(x, VRef):
+                                rr = ref_chain(E, x)
+                                out.append(VRef(rr.cell, rr.path + (("downcast", "Some", 1), ("field", 0))) if False else xv.fields[0])
+                            else:
+                                out.append(xv.fields[0])
+                    elif isinstance(xv, VSeq):
+                        out += list(xv.items[xv.pos:])
+                    else:
+                        raise Unsupported("flatten over %r" % (xv,))
+                return VSeq(out, "iter")
             if meth == "flat_map":
                 out = []
                 for x in rest:
